@@ -4,7 +4,9 @@ package main
 
 import (
 	"fmt"
+	"go/constant"
 	"go/token"
+	"go/types"
 	"sort"
 	"strings"
 
@@ -640,4 +642,171 @@ func binderTranscriptRule(c *Ctx) {
 		}
 	}
 	c.Check(n >= 3, "R-PROV", "z/tls", "PSK binder computations found", "-", fmt.Sprint(n))
+}
+
+// suiteTableRule: each row of a TLS <= 1.2 cipher-suite table agrees with the suite's IANA name, which is the
+// specification of its parameters: the PRF hash flag (suiteSHA384 iff the name ends in _SHA384), the key length
+// (AES_128/RC4_128 16, AES_256/CHACHA20 32, 3DES 24) and the AEAD column (GCM, CHACHA20_POLY1305, else nil).
+func suiteTableRule(c *Ctx, table string) {
+	w := c.W
+	rows, p, pos := w.VarRows("z/tls", table)
+	if p == nil || len(rows) == 0 {
+		c.Undecided("R-TABLE", "tls."+table, "anchor", "-", "table not found")
+		return
+	}
+	sha384 := int64(0)
+	if k, ok := p.Types.Scope().Lookup("suiteSHA384").(*types.Const); ok {
+		sha384, _ = constant.Int64Val(k.Val())
+	}
+	n := 0
+	for _, r := range rows {
+		if len(r) < 9 || r[0].Obj == nil {
+			continue
+		}
+		name := r[0].Obj.Name()
+		if !strings.HasPrefix(name, "TLS_") {
+			continue
+		}
+		n++
+		c.Sites++
+		var bad []string
+		if r[5].Const != nil && sha384 != 0 {
+			fl, _ := constant.Int64Val(r[5].Const)
+			if (fl&sha384 != 0) != strings.HasSuffix(name, "_SHA384") {
+				bad = append(bad, fmt.Sprintf("suiteSHA384 flag is %v", fl&sha384 != 0))
+			}
+		} else {
+			bad = append(bad, "flags are not constant")
+		}
+		wantKey := int64(-1)
+		switch {
+		case strings.Contains(name, "AES_128"), strings.Contains(name, "RC4_128"):
+			wantKey = 16
+		case strings.Contains(name, "AES_256"), strings.Contains(name, "CHACHA20"):
+			wantKey = 32
+		case strings.Contains(name, "3DES"):
+			wantKey = 24
+		}
+		if wantKey >= 0 && r[1].Const != nil {
+			if kl, _ := constant.Int64Val(r[1].Const); kl != wantKey {
+				bad = append(bad, fmt.Sprintf("key length %d", kl))
+			}
+		}
+		aead := r[8].String()
+		switch {
+		case strings.Contains(name, "_GCM_"):
+			if aead != "aeadAESGCM" {
+				bad = append(bad, "aead "+aead)
+			}
+		case strings.Contains(name, "CHACHA20_POLY1305"):
+			if strings.ToLower(aead) != "aeadchacha20poly1305" { // two equivalent constructors exist
+				bad = append(bad, "aead "+aead)
+			}
+		default:
+			if aead != "nil" {
+				bad = append(bad, "aead "+aead)
+			}
+		}
+		c.Check(len(bad) == 0, "R-TABLE", "tls."+table, "row "+name+" carries the parameters its name specifies (PRF hash flag, key length, AEAD)", w.Pos(pos), strings.Join(bad, "; "))
+	}
+	c.Check(n >= 20, "R-TABLE", "tls."+table, "rows enumerated", w.Pos(pos), fmt.Sprint(n))
+}
+
+// c27Extras3: (a) the name a certificate is verified against (Config.ServerName) is only ever filled in where it is
+// empty, never replaced (ClientHello templates and fingerprints carry their own SNI); (b) loadSession offers a cached
+// session only past the test that the stored leaf certificate has not expired at Config.Time.
+func c27Extras3(c *Ctx) {
+	w := c.W
+	n := 0
+	for _, fw := range w.FieldWrites()["Config.ServerName"] {
+		if fw.Kind != "store" || fw.Fn.Pkg == nil || fw.Fn.Pkg.Pkg.Path() != expand("z/tls") {
+			continue
+		}
+		// the struct literal of Clone copies the field
+		if strings.HasSuffix(FuncName(fw.Fn), "Config).Clone") {
+			continue
+		}
+		n++
+		c.Sites++
+		in := fw.In
+		base := fw.Base
+		c.Cut(CutSpec{Rule: "R-OWN", Fn: fw.Fn, Label: fmt.Sprintf("Config.ServerName is written (#%d in %s) only where it was empty", n, short(FuncName(fw.Fn))), MinTargets: -1,
+			Target: func(i2 ssa.Instruction, _ resolver) bool { return i2 == in },
+			Cut: func(f Fact) bool {
+				if f.Op != "eq" || f.Y == nil {
+					return false
+				}
+				k, ok := f.Y.(*ssa.Const)
+				if !ok || k.Value == nil || k.Value.ExactString() != `""` {
+					return false
+				}
+				u, ok := f.X.(*ssa.UnOp)
+				if !ok {
+					return false
+				}
+				fa, ok := u.X.(*ssa.FieldAddr)
+				// the tested Config may be the original of the clone that is written (tls.dial)
+				_ = base
+				return ok && fieldName(fa) == "Config.ServerName"
+			}})
+	}
+	c.Check(n >= 2, "R-OWN", "z/tls", "writers of Config.ServerName enumerated", "-", fmt.Sprint(n))
+	if fn := w.Fn("(*z/tls.Conn).loadSession"); fn != nil {
+		c.Sites++
+		c.Cut(CutSpec{Rule: "R-CUT", Fn: fn, Label: "a verifying client offers a cached session only past the test that the stored leaf certificate is not expired (Config.time() after serverCertificates[0].NotAfter)", MinTargets: -1,
+			Target: func(in ssa.Instruction, res resolver) bool {
+				rt, ok := in.(*ssa.Return)
+				return ok && len(rt.Results) >= 2 && !isNilConst(res(unspill(rt, 1)))
+			},
+			Cut: func(f Fact) bool {
+				if factExpr("true", "c.config.InsecureSkipVerify", "")(f) {
+					return true
+				}
+				cl := callOf(f.X)
+				if f.Op != "false" || cl == nil || calleeName(&cl.Call) != "(time.Time).After" || len(cl.Call.Args) != 2 {
+					return false
+				}
+				return strings.HasSuffix(Expr(cl.Call.Args[1]), "serverCertificates[0].NotAfter") && strings.Contains(Expr(cl.Call.Args[0]), "time(")
+			}})
+	}
+}
+
+// c25Extras3: atLeastReader.Read reports an unexpected EOF judging by the bytes still missing after the read it has
+// just done: the ErrUnexpectedEOF return lies behind the update of N.
+func c25Extras3(c *Ctx) {
+	w := c.W
+	fn := w.Fn("(*z/tls.atLeastReader).Read")
+	if fn == nil {
+		c.Undecided("R-ORDER", "tls.atLeastReader.Read", "anchor", "-", "not found")
+		return
+	}
+	c.Sites++
+	hit := 0
+	c.Cut(CutSpec{Rule: "R-ORDER", Fn: fn, Label: "io.ErrUnexpectedEOF is returned only after N was reduced by the bytes just read", MinTargets: -1,
+		Target: func(in ssa.Instruction, res resolver) bool {
+			rt, ok := in.(*ssa.Return)
+			if !ok || len(rt.Results) != 2 {
+				return false
+			}
+			if strings.HasSuffix(Expr(res(unspill(rt, 1))), "io.ErrUnexpectedEOF") {
+				hit++
+				return true
+			}
+			return false
+		},
+		Barrier: func(in ssa.Instruction) bool {
+			st, ok := in.(*ssa.Store)
+			if !ok {
+				return false
+			}
+			fa, ok := st.Addr.(*ssa.FieldAddr)
+			return ok && fieldLeaf(fieldName(fa)) == "N"
+		}, Cut: func(Fact) bool { return false }})
+	found := false
+	for _, rt := range returnsOf(fn) {
+		if len(rt.Results) == 2 && strings.Contains(Expr(unspill(rt, 1)), "ErrUnexpectedEOF") {
+			found = true
+		}
+	}
+	c.Check(found, "R-ORDER", "tls.atLeastReader.Read", "the ErrUnexpectedEOF return found", w.Pos(fn.Pos()), "")
 }
